@@ -14,7 +14,7 @@ from typing import Any, Dict, List, Optional, Tuple
 
 from . import e3_c09 as C09
 from . import e3_c10 as C10
-from .e3_engine import Env, Violation, world_from_json, world_to_json, tag_text, TAGGED_TYPES_FULL, TAGGED_TYPES_PARTIAL
+from .e3_engine import Env, Violation, world_from_json, world_to_json, tag_text, TAGGED_TYPES_FULL, TAGGED_TYPES_PARTIAL, ERR_TYPES
 from .refmodel import World, expected_dump, real_dump, diff_dumps
 
 PROP = "C16"
@@ -94,7 +94,9 @@ class C16Engine(C09.C09Engine):
         if fl == "default":
             cls = self.env.renderers[lang]["default"]
             return self._call(lambda: cls.render(o))
-        types = TAGGED_TYPES_FULL if fl in ("tag", "nodb") else TAGGED_TYPES_PARTIAL
+        if fl == "err" and TYPE_OF[kind] in ERR_TYPES:
+            return ["exc", "AttributeError"]
+        types = TAGGED_TYPES_FULL if fl in ("tag", "nodb", "err") else TAGGED_TYPES_PARTIAL
         if fl == "sub" and lang == "sql":
             # the default SQL renderer checks required attributes before dispatching, subclasses inherit that
             try:
@@ -221,6 +223,18 @@ class C16Engine(C09.C09Engine):
             self.probe(h, lang, ctx)
             self.trace.append("render:accepted")
             return "accepted"
+        if op[0] == "rename_col":
+            # plain attribute assignment: two columns of one table may end up with the same name
+            _, c, name = op
+            if c not in self.w.m or self.kinds[c] != "column":
+                return "veto"
+            self.w.m[c]["name"] = name
+            self.real[c].name = name
+            self.version += 1
+            self.check_state(ctx)
+            self.check_lookups(ctx)
+            self.trace.append("rename_col:accepted")
+            return "accepted"
         if op[0] == "render_all":
             hs = [h for h in self.w.m if self.kinds[h] in TOP + ("column", "db", "index")]
             order = random.Random(op[1]).sample(hs, len(hs))
@@ -241,7 +255,7 @@ class C16Engine(C09.C09Engine):
 
 CONFIGS = [("default", "default"), ("tag", "tag"), ("partial", "partial"), ("default", "tag"), ("partial", "default"),
            ("tag", "partial"), ("sub", "sub"), ("sub", "default"), ("default", "sub"), ("nodb", "nodb"), ("nodb", "tag"),
-           ("default", "nodb")]
+           ("default", "nodb"), ("err", "err"), ("err", "default"), ("tag", "err")]
 
 
 def gen_world(rng: random.Random, via: str) -> World:
@@ -296,7 +310,7 @@ def gen_world(rng: random.Random, via: str) -> World:
     return w
 
 
-OPW = {"render": 30, "render_all": 6, "add": 22, "delete": 16, "rename": 4, "delete_project": 1,
+OPW = {"render": 30, "render_all": 6, "rename_col": 3, "add": 22, "delete": 16, "rename": 4, "delete_project": 1,
        "t_add_col": 4, "t_del_col": 4, "t_del_col_at": 2, "t_add_idx": 3, "t_del_idx": 2, "add_bad": 1, "delete_bad": 1}
 
 
@@ -311,6 +325,12 @@ def draw_op(rng: random.Random, eng: C16Engine, weights: Dict[str, float]) -> Li
         return ["render", h, rng.choice(["sql", "dbml"])]
     if k == "render_all":
         return ["render_all", rng.randrange(1000)]
+    if k == "rename_col":
+        cols = w.handles("column")
+        c = rng.choice(cols)
+        t = w.m[c]["table"]
+        pool = [w.m[x]["name"] for x in w.m[t]["cols"]] if t and rng.random() < 0.7 else ["id", "v", "renamed"]
+        return ["rename_col", c, rng.choice(pool)]
     if k in ("add", "delete") and rng.random() < 0.6:
         # moves: prefer objects currently contained somewhere / currently free
         dbs = w.handles("db")
